@@ -179,6 +179,8 @@ type history struct {
 	forced map[int][]string // run -> routes that fail in that run whatever the dice say
 	forcedNet map[int][]string // run -> routes whose request fails (connection reset) in that run
 	changed   map[int][]string // run -> ecosystems that republish in that run whatever the dice say
+	forcedSt  map[int][]string // run -> routes that answer 503 in that run
+	quiet     map[int]bool     // run -> no faults and nothing republished (the dice are not asked)
 }
 
 func (hy *history) logf(f string, a ...any) { hy.log = append(hy.log, fmt.Sprintf(f, a...)) }
@@ -287,7 +289,8 @@ func (hy *history) feeds(run int, changed map[string]bool) {
 				continue
 			}
 			p := x.pair
-			w.put("osv.test/ecosystems.txt", 200, "text/plain", []byte("PyPI\n"), "etag", et)
+			// the list of ecosystems does not change when an ecosystem's database does
+			w.put("osv.test/ecosystems.txt", 200, "text/plain", []byte("PyPI\n"), "etag", `"ecosystems-1"`)
 			w.put(x.feed, 200, "application/zip", osvZip([]osvAdv{
 				{id: x.advID("vuln", run), ecosystem: "PyPI", name: p.vulnBin, purl: "pkg:pypi/x", rangeType: "ECOSYSTEM", intro: "0", fixed: p.fixIn},
 				{id: x.advID("fixed", run), ecosystem: "PyPI", name: p.fixedBin, purl: "pkg:pypi/y", rangeType: "ECOSYSTEM", intro: "0", fixed: p.fixIn}}), "etag", et)
@@ -321,6 +324,12 @@ func (hy *history) pickFaults(run int) map[string]fault {
 	}
 	for _, k := range hy.forcedNet[run] {
 		out[k] = fault{net: true}
+	}
+	for _, k := range hy.forcedSt[run] {
+		out[k] = fault{status: 503}
+	}
+	if hy.quiet[run] {
+		return map[string]fault{}
 	}
 	if run == 1 && rn.Chance(2, 3) {
 		return out // most histories start with a clean run
@@ -367,6 +376,9 @@ func (hy *history) run(ctx context.Context, run int) {
 	}
 	for _, e := range hy.changed[run] {
 		changed[e] = true
+	}
+	if hy.quiet[run] {
+		changed = map[string]bool{}
 	}
 	// a release that enters the alpine mirror comes with a new stamp
 	for _, x := range hy.rels {
@@ -542,7 +554,7 @@ func (h *harness) sectionHistory() {
 
 	nh, nr := h.cfg.N(3, 24), h.cfg.N(6, 10)
 	for hi := 0; hi < nh && !r.Stop(); hi++ {
-		hy := &history{id: hi, h: h, w: newWorld(), st: newHistStore(), epoch: map[string]int{}, forced: map[int][]string{}, forcedNet: map[int][]string{}, changed: map[int][]string{}}
+		hy := &history{id: hi, h: h, w: newWorld(), st: newHistStore(), epoch: map[string]int{}, forced: map[int][]string{}, forcedNet: map[int][]string{}, changed: map[int][]string{}, forcedSt: map[int][]string{}, quiet: map[int]bool{}}
 		hy.w.conditional = true
 		tag := freshTag()
 		for _, a := range alps {
@@ -569,6 +581,21 @@ func (h *harness) sectionHistory() {
 					if hi < 2 {
 						hy.forcedNet[3] = []string{"alpine.test/v" + last.rel + "/"}
 						hy.changed[3] = []string{"alpine"}
+						// run 5: a repository file (history 0) or a release directory
+						// (history 1) answers 503 while the walk completes; run 6 is quiet
+						var stable []string
+						for _, a := range alps {
+							if a.rel != "edge" {
+								stable = append(stable, a.rel)
+							}
+						}
+						if hi == 0 {
+							hy.forcedSt[5] = []string{"alpine.test/v" + stable[0] + "/main.json"}
+						} else {
+							hy.forcedSt[5] = []string{"alpine.test/v" + stable[len(stable)/2] + "/"}
+						}
+						hy.changed[5] = []string{"alpine"}
+						hy.quiet[6] = true
 					}
 				}
 			}
